@@ -96,12 +96,17 @@ var crashHand = []string{
 	"(1 \\)", "[1 \\ 2]", "/*", "/* */", "*/", "//", "// a", "/", "(/*)", "(/* */)", "(//\n)", "[,]", "[,,1,]", "(,)", ";", "(;)",
 }
 
+// `include` reads files, so the name is denied; with arguments that hold no string nothing
+// is opened: these exact texts are run all the same.
+var crashIncludeTexts = []string{"(include)", "(include 1)", "(include a)", "(include [])", "(include ())", "(include (1 2))",
+	"(include ([] \\ 2))", "(include [1 (2 \\ 3)])", "(include [[] ()])", "(include (() \\ 2))", "(+ 1 (include ([] \\ 2)))"}
+
 // texts that do not terminate (answer `hang` after the watchdog, 2 s each): bare only
 var crashNonterminating = []string{"(defmac m [] ^(m)) (m)", "(defn f [] (f)) (f)", "(defn f [n] (+ 1 (f n))) (f 1)",
 	"(for [(def i 0) true (def i 1)] 1)"}
 
 func crashEmitText(g *Gen, kind string, cfg byte, text string) {
-	if crashDenied(text) {
+	if crashDenied(text) && !crashAllowExact[text] {
 		g.Count(kind + "-denied")
 		return
 	}
@@ -580,6 +585,9 @@ func crashGenHand(g *Gen) {
 			}
 		}
 	}
+	for _, t := range crashIncludeTexts {
+		crashEmitText(g, "hand-include", 's', t)
+	}
 	for _, t := range crashNonterminating {
 		crashEmitText(g, "hand-nonterminating", 's', t)
 	}
@@ -596,6 +604,100 @@ func crashGenHand(g *Gen) {
 		crashEmitText(g, "deep", 's', strings.Repeat("'", d)+"a")
 		crashEmitText(g, "deep", 's', strings.Repeat("(+ 1 ", d)+"1"+strings.Repeat(")", d))
 		crashEmitText(g, "deep", 's', "(defn f [n] (cond (== n 0) 0 (+ 1 (f (- n 1))))) (f "+strings.Repeat("1", 1)+"000)")
+	}
+}
+
+// ---------------------------------------------------------------- pairs of values through the binding / container / printing paths
+
+var crashPairTemplates = []string{"(def a %1) (def a %2)", "(def a %1) (set a %2)", "(def a [%1]) (def a [%2])", "(def a [%1 %2]) (str a)",
+	"(def a [%1]) (aset a 0 %2) a", "(def h (hash k: %1)) (hset h k: %2) h", "{a = %1; a = %2}", "(def a %1) (== a %2)", "(def a %1) (< a %2)",
+	"(let [a %1] (def a %2))", "((fn [a] (def a %2)) %1)", "(def a %1) (json a)", "(def a %1) (msgpack a)", "(def a %1) (type? a) (str a) (copy a)",
+	"(def a (list %1 %2)) (str a)", "(hash %1 %2)", "(def h (hash)) (hset h %1 %2) (hget h %1)", "(append [%1] %2)", "(concat %1 %2)", "(cons %1 %2)",
+	"(mdef a b (list %1 %2)) [a b]", "{a, b = %1, %2}", "(aget %1 %2)", "(hget %1 %2)", "(%1 %2)", "(apply %1 %2)", "(map %1 %2)", "(slice %1 0 %2)"}
+
+func crashGenPairs(g *Gen) {
+	r := g.Rng
+	for _, v1 := range crashArgs {
+		for _, v2 := range crashArgs {
+			for _, t := range crashPairTemplates {
+				if !g.Thorough() && r.Intn(12) != 0 {
+					continue
+				}
+				text := strings.ReplaceAll(strings.ReplaceAll(t, "%1", v1), "%2", v2)
+				crashEmitText(g, "pairs", 's', text)
+			}
+		}
+	}
+}
+
+// ---------------------------------------------------------------- infix blocks
+
+var crashInfixToks = []string{"a", "b", "1", "2", "\"s\"", "+", "-", "*", "/", "**", "%", "<", ">", "<=", ">=", "==", "!=", "!",
+	"&&", "||", "=", ":=", "+=", "-=", "++", "--", ";", ",", ":", ".", "(", ")", "[", "]", "{", "}", "if", "else", "for", "range",
+	"break", "continue", "return", "and", "or", "not", "fn", "def", "a:", "a.b", ".a", "[1]", "[1:2]", "(f)", "f(", "nil", "true",
+	"[]", "()", "{}", "lbl:", "i", "i++", "-1", "1.5", "'c'", "\n", "//c\n", "/*c*/", "^", "~", "$a", "&a", "*a", "a[", "a[0]", "a[0][1]", "a.b.c"}
+
+func crashGenInfix(g *Gen) {
+	r := g.Rng
+	emit := func(toks []string) {
+		sep := " "
+		if r.Intn(6) == 0 {
+			sep = ""
+		}
+		body := strings.Join(toks, sep)
+		crashEmitText(g, "infix", 's', "{"+body+"}")
+		if r.Intn(4) == 0 {
+			crashEmitText(g, "infix", 's', "(def a [1 2 3]) (def b (hash c: 1)) (def i 0) (defn f [x] x) {"+body+"}")
+		}
+	}
+	n := len(crashInfixToks)
+	for i := 0; i < n; i++ {
+		emit([]string{crashInfixToks[i]})
+		for j := 0; j < n; j++ {
+			if g.Thorough() || r.Intn(3) == 0 {
+				emit([]string{crashInfixToks[i], crashInfixToks[j]})
+			}
+		}
+	}
+	samples := 4000
+	if g.Thorough() {
+		samples = 80000
+	}
+	for k := 0; k < samples; k++ {
+		l := 3 + r.Intn(6)
+		toks := make([]string, l)
+		for i := range toks {
+			toks[i] = crashInfixToks[r.Intn(n)]
+		}
+		// mostly start from a well-formed skeleton and disturb it
+		if r.Intn(2) == 0 {
+			skel := [][]string{
+				{"for", "i", ":=", "0", ";", "i", "<", "2", ";", "i++", "{", "a", "=", "i", "}"},
+				{"for", "i", ",", "b", ":=", "range", "a", "{", "b", "}"},
+				{"for", "i", ":=", "range", "a", "{", "break", "}"},
+				{"lbl:", "for", ";", "i", "<", "1", ";", "{", "break", "lbl:", "}"},
+				{"if", "a", "<", "1", "{", "2", "}", "else", "{", "3", "}"},
+				{"a", ",", "b", "=", "1", ",", "2"},
+				{"a[0]", "=", "a[1:2]", "+", "b.c"},
+				{"f", "(", "a", ",", "1", ")", "+", "-", "b"},
+			}[r.Intn(8)]
+			toks = append([]string{}, skel...)
+			for m := 1 + r.Intn(3); m > 0; m-- {
+				pos := r.Intn(len(toks))
+				switch r.Intn(3) {
+				case 0:
+					toks = append(toks[:pos], toks[pos+1:]...)
+				case 1:
+					toks[pos] = crashInfixToks[r.Intn(n)]
+				case 2:
+					toks = append(toks[:pos], append([]string{crashInfixToks[r.Intn(n)]}, toks[pos:]...)...)
+				}
+				if len(toks) == 0 {
+					toks = []string{"a"}
+				}
+			}
+		}
+		emit(toks)
 	}
 }
 
@@ -645,6 +747,12 @@ func crashGen(g *Gen) {
 	}
 	if want("form") {
 		crashGenForms(g)
+	}
+	if want("pairs") {
+		crashGenPairs(g)
+	}
+	if want("infix") {
+		crashGenInfix(g)
 	}
 	if want("mut") {
 		n := 2500
